@@ -195,7 +195,8 @@ pub fn random_source(rng: &mut Rng) -> ArrDesc {
     if rng.chance(1, 20) {
         // a user-defined model (default brute-force `steps_iter`, steps that jump by k jobs)
         let k = rng.range(1, 4);
-        let user = ArrDesc::User(period * k, k);
+        let t = period * k;
+        let user = ArrDesc::User(t, k, if rng.chance(1, 2) { 0 } else { rng.range(1, (t / 2).max(1)) });
         return match rng.below(3) {
             0 => user,
             1 => ArrDesc::Jittered(Box::new(user), rng.below(period)),
